@@ -136,7 +136,7 @@ def run_basis(ctx, case):
                         exp = impulse_expect(method, l, r, br, Nd, a, s, b, t)
                         nz = np.argwhere(np.abs(H) > 1e-15)
                         got = {(int(x), int(y)): float(H[x, y]) for x, y in nz}
-                        if set(got) != set(exp) or any(abs(got[c] - exp[c]) > 1e-12 for c in exp):
+                        if set(got) != set(exp) or any(not (abs(got[c] - exp[c]) <= 1e-12) for c in exp):
                             if bad is None:
                                 extra = sorted(set(got) - set(exp))[:3]
                                 missing = sorted(set(exp) - set(got))[:3]
@@ -190,7 +190,7 @@ def run_random(ctx, rng):
         E = fdef(Y.astype(float), Yref.astype(float), br)
         err = np.max(np.abs(H - E)) / np.max(np.abs(E))
         ctx.maxi(f"definition({method}): worst relative difference", err)
-        if err > 1e-10:
+        if not (err <= 1e-10):
             x, y = np.unravel_index(np.argmax(np.abs(H - E)), H.shape)
             ctx.fail(f"{method}:definition_mismatch", f"{method} l={l} ref={refidx} br={br} Ndat={Nd}: entry (block {x//l}, ch {x%l}; block {y//r}, ref {y%r}) = {H[x,y]:.6g}, definition {E[x,y]:.6g}")
         # bilinearity
